@@ -207,6 +207,14 @@ fn parse_ifdata_taggedstruct(
     let mut result = HashMap::<String, Vec<GenericIfDataTaggedItem>>::new();
     while let Some(taggeditem) = parse_ifdata_taggeditem(parser, context, tsspec)? {
         if let Some(itemvec) = result.get_mut(&taggeditem.tag) {
+            // only the members that are defined as ("TAG" ...)* may occur more than once
+            if !tsspec.get(&taggeditem.tag).is_some_and(|spec| spec.repeat) {
+                return Err(ParserError::invalid_multiplicity_too_many(
+                    parser,
+                    context,
+                    &taggeditem.tag,
+                ));
+            }
             itemvec.push(taggeditem);
         } else {
             result.insert(taggeditem.tag.clone(), vec![taggeditem]);
